@@ -369,8 +369,8 @@ def gen_case(seed, tier, idx):
                         "ov": None if idx == 0 else 0, "bad": None}}
     if idx in (1, 2):
         return gen_collision(rnd, idx)
-    if idx in (4, 5):
-        return gen_collision_literal(rnd, idx)
+    if idx in (4, 5, 6, 7, 8):
+        return gen_collision_literal(rnd, 4 if idx in (4, 6, 8) else 5)
     nk = len(KINDS)
     kind = KINDS[idx % nk]
     sub = "rand"
@@ -412,17 +412,27 @@ def gen_collision_literal(rnd, idx):
     the colliding one (`<joined>_<k>`), before and after it: whatever name a colliding submodule is given must be
     checked against every name, taken earlier or later."""
     f = ["f", {"kind": "RW", "shape": {"t": "u", "w": 2}, "init": None}]
-    ks = [1, 2, 3, 4, 5] if rnd.random() < 0.7 else rnd.sample([1, 2, 3, 4], rnd.choice([2, 3]))
+    # literal names placed BEFORE the colliding pair: a random subset of 1..6 that (usually) contains the suffixes the
+    # obvious renaming schemes would pick - 1 (a counter), the number of names taken so far, that number + 1
+    nb = rnd.randint(1, 4)
+    if rnd.random() < 0.8:
+        # the suffix a "number of names so far" scheme picks at the collision is nb + 1; a counter scheme picks 1
+        must = [nb + 1] + ([1] if nb >= 2 else [])
+        rest = [k for k in range(1, 8) if k not in must]
+        before = set(must[:nb]) | set(rnd.sample(rest, max(0, nb - len(must[:nb]))))
+    else:
+        before = set(rnd.sample(range(1, 8), nb))
+    after = [k for k in range(1, 8) if k not in before and rnd.random() < 0.5]
+    before = sorted(before)
+    rnd.shuffle(before)
     if idx == 4:
         if rnd.random() < 0.5:
             joined, pair = "a__b", [["a", ["d", [["b", f]]]], ["a__b", f]]
         else:
             joined, pair = "a__0", [["a", ["l", [f]]], ["a__0", f]]
-        lit = [[f"{joined}_{k}", f] for k in ks]
-        cut = rnd.randrange(len(lit) + 1)
         if rnd.random() < 0.5:
             pair = pair[::-1]
-        fields = lit[:cut] + pair + lit[cut:]
+        fields = [[f"{joined}_{k}", f] for k in before] + pair + [[f"{joined}_{k}", f] for k in after]
         cfg = {"fields": ["d", fields], "access": "rw"}
         cfg["paths"] = paths_of_register(cfg)
         return {"engine": "elab", "kind": "register", "sub": "collide", "pred": int(cfg["paths"] is not None), "cfg": cfg}
@@ -431,11 +441,10 @@ def gen_collision_literal(rnd, idx):
         joined, pair = "a__0", [["add", "a__0", reg, None], ["cluster", "a", [["add", "0", reg, None]]]]
     else:
         joined, pair = "mux", [["add", "mux", reg, None]]
-    lit = [["add", f"{joined}_{k}", reg, None] for k in ks]
-    cut = rnd.randrange(len(lit) + 1)
     if rnd.random() < 0.5:
         pair = pair[::-1]
-    cfg = {"aw": 8, "dw": 8, "gran": 8, "bad": None, "ops": lit[:cut] + pair + lit[cut:]}
+    ops = [["add", f"{joined}_{k}", reg, None] for k in before] + pair + [["add", f"{joined}_{k}", reg, None] for k in after]
+    cfg = {"aw": 8, "dw": 8, "gran": 8, "bad": None, "ops": ops}
     cfg["names"] = names_of_ops(cfg)
     return {"engine": "elab", "kind": "csrbridge", "sub": "collide", "pred": int(cfg["names"] is not None), "cfg": cfg}
 
